@@ -226,6 +226,8 @@ class Gen:
         for c in cuts + [len(blocks)]:
             ivs.append({"gap": rng.choice([0, 0, 0, 16]),
                         "blocks": blocks[prev:c]})
+            if rng.random() < 0.12:
+                ivs[-1]["lead"] = rng.choice([1, 3, 4, 8])
             prev = c
         ivs[0]["gap"] = 0
         return ivs
